@@ -36,6 +36,7 @@ func scriptsForTrace(sc *Scenario) []any {
 }
 
 func runLookupInBubble(t *testing.T, sc *Scenario, ch sim.Chooser) []sim.Ev {
+	base0 := sim.BubbleSet()
 	e := buildLookupEnv(t, sc)
 	tr := e.tr
 	d := e.d
@@ -66,10 +67,13 @@ func runLookupInBubble(t *testing.T, sc *Scenario, ch sim.Chooser) []sim.Ev {
 			conn = append(conn, i+1)
 		}
 	}
+	lvOK, lvRank := valRank([]byte(sc.LocalVal))
+	pvOK, pvRank := valRank([]byte(sc.PutVal))
 	tr.Add("Reset", "op", sc.Op, "K", sc.K, "alpha", sc.Alpha, "beta", sc.Beta, "N", sc.N,
 		"rt", rt, "seeds", sim.Ints(seeds), "reject", sim.Ints(sc.Reject), "conn", conn,
 		"count", sc.Count, "quorum", sc.Quorum, "localval", sc.LocalVal, "localprv", sim.Ints(sc.LocalPrv),
-		"putval", sc.PutVal, "honest", sc.Honest, "full", sc.Full, "selfrank", e.u.SelfRank(), "scr", scriptsForTrace(sc), "ts", 0)
+		"putval", sc.PutVal, "lvvalid", lvOK, "lvrank", lvRank, "pvvalid", pvOK, "pvrank", pvRank,
+		"timeout", sc.Timeout*1000, "optprov", sc.OptProv, "honest", sc.Honest, "full", sc.Full, "selfrank", e.u.SelfRank(), "scr", scriptsForTrace(sc), "ts", 0)
 
 	regCtx, regCancel := context.WithCancel(context.Background())
 	lctx, lev := dht.RegisterForLookupEvents(regCtx)
@@ -99,6 +103,8 @@ func runLookupInBubble(t *testing.T, sc *Scenario, ch sim.Chooser) []sim.Ev {
 	}
 	defer opCancel()
 
+	synctest.Wait()
+	base := sim.BubbleSet()
 	opDone := make(chan struct{})
 	go func() {
 		defer close(opDone)
@@ -157,6 +163,19 @@ func runLookupInBubble(t *testing.T, sc *Scenario, ch sim.Chooser) []sim.Ev {
 	tr.Add("Q", "ts", e.now())
 	if hang {
 		tr.Add("Hang", "ts", e.now())
+	} else {
+		// everything the operation started must end by itself within the
+		// operation's own timeouts: let three minutes of virtual time pass
+		time.Sleep(3 * time.Minute)
+		synctest.Wait()
+		tr.Flush()
+		left := sim.NewSince(base, "verifharness")
+		descs := []string{}
+		for _, g := range left {
+			descs = append(descs, g.Describe())
+		}
+		sort.Strings(descs)
+		tr.Add("Bg", "n", len(left), "what", descs, "pending", e.gate.Len(), "ts", e.now())
 	}
 	tr.Add("PreClose", "rt", e.rtRanks(), "ts", e.now())
 	// shut down; anything still parked is released by context cancellation
@@ -188,6 +207,15 @@ func runLookupInBubble(t *testing.T, sc *Scenario, ch sim.Chooser) []sim.Ev {
 	_ = e.host.Close()
 	synctest.Wait()
 	tr.Flush()
+	{
+		left := sim.NewSince(base0, "verifharness")
+		descs := []string{}
+		for _, g := range left {
+			descs = append(descs, g.Describe())
+		}
+		sort.Strings(descs)
+		tr.Add("Left", "n", len(left), "what", descs, "ts", e.now())
+	}
 	tr.Add("End", "ts", e.now())
 	return tr.Events
 }
@@ -237,7 +265,8 @@ func (e *lookupEnv) runOp(ctx context.Context) {
 			opts = append(opts, dht.Quorum(sc.Quorum))
 		}
 		v, err := d.GetValue(ctx, e.key, opts...)
-		tr.AddBuf(3, "", "Return", "val", string(v), "err", errClass(err), "ts", e.now())
+		okv, rkv := valRank(v)
+		tr.AddBuf(3, "", "Return", "val", string(v), "valid", okv, "rank", rkv, "err", errClass(err), "ts", e.now())
 	case "searchvalue":
 		opts := []routing.Option{}
 		if sc.Quorum >= 0 {
@@ -245,31 +274,41 @@ func (e *lookupEnv) runOp(ctx context.Context) {
 		}
 		ch, err := d.SearchValue(ctx, e.key, opts...)
 		if err != nil {
-			tr.AddBuf(3, "", "Return", "val", "", "err", errClass(err), "ts", e.now())
+			tr.AddBuf(3, "", "Return", "val", "", "valid", false, "rank", -1, "err", errClass(err), "ts", e.now())
 			return
 		}
 		last := ""
 		for v := range ch {
 			last = string(v)
-			tr.AddBuf(3, "", "Emit", "val", string(v), "p", -1, "ts", e.now())
+			ok, rk := valRank(v)
+			tr.AddBuf(3, "", "Emit", "val", string(v), "p", -1, "naddrs", 0, "valid", ok, "rank", rk, "ts", e.now())
 		}
 		tr.AddBuf(3, "", "ChanClosed", "ts", e.now())
-		tr.AddBuf(3, "", "Return", "val", last, "err", errClass(ctx.Err()), "ts", e.now())
+		okl, rkl := valRank([]byte(last))
+		tr.AddBuf(3, "", "Return", "val", last, "valid", okl, "rank", rkl, "err", errClass(ctx.Err()), "ts", e.now())
 	case "findprov":
 		ch := d.FindProvidersAsync(ctx, e.cid, sc.Count)
 		got := []int{}
 		for ai := range ch {
 			got = append(got, e.u.Rank(ai.ID))
-			tr.AddBuf(3, "", "Emit", "val", "", "p", e.u.Rank(ai.ID), "naddrs", len(ai.Addrs), "ts", e.now())
+			tr.AddBuf(3, "", "Emit", "val", "", "p", e.u.Rank(ai.ID), "naddrs", len(ai.Addrs), "valid", false, "rank", -1, "ts", e.now())
 		}
 		tr.AddBuf(3, "", "ChanClosed", "ts", e.now())
 		tr.AddBuf(3, "", "Return", "peers", got, "err", errClass(ctx.Err()), "ts", e.now())
 	case "putvalue":
 		err := d.PutValue(ctx, e.key, []byte(sc.PutVal))
-		tr.AddBuf(3, "", "Return", "err", errClass(err), "ts", e.now())
+		tr.AddBuf(3, "", "Return", "err", errClass(err), "localval", e.localValue(), "ts", e.now())
 	case "provide":
 		err := d.Provide(ctx, e.cid, true)
-		tr.AddBuf(3, "", "Return", "err", errClass(err), "ts", e.now())
+		selfLocal := false
+		if ps, perr := d.ProviderStore().GetProviders(context.Background(), []byte(e.key)); perr == nil {
+			for _, ai := range ps {
+				if ai.ID == e.u.Self {
+					selfLocal = true
+				}
+			}
+		}
+		tr.AddBuf(3, "", "Return", "err", errClass(err), "selflocal", selfLocal, "ts", e.now())
 	default:
 		panic("unknown op " + sc.Op)
 	}
